@@ -69,3 +69,8 @@ Proof. unfold bytes. intros H. revert n. induction H as [|x l Hx Hl IH]; intros 
 
 Lemma bytes_slice o n l : bytes l -> bytes (slice o n l).
 Proof. intros. unfold slice. auto using bytes_firstn, bytes_skipn. Qed.
+
+Lemma get_le_0_app_dec a b n : length a = n -> get_le 0 n (a ++ b) = le_decode a.
+Proof. intros H. unfold get_le. now rewrite slice_0_app. Qed.
+Lemma get_le_skip_dec a b n m : length a = n -> get_le n m (a ++ b) = get_le 0 m b.
+Proof. intros H. unfold get_le. replace n with (n + 0)%nat by lia. now rewrite slice_skip_app. Qed.
